@@ -36,6 +36,7 @@ class Tracker(CmdMixin, MboxMixin, SweepMixin, Monitor):
         self.f8_dangling = False
         self.lost_np = {}                # (app, name) -> (mailbox id, holders) of a nameplate that vanished wrongly
         self._np_before = {}
+        self.np_ever = set()                # (app, name) of every nameplate incarnation there ever was
         self.retired_np = {}               # (app, name) -> mailbox id of an incarnation that ended by its last release
         self.mid_owner = {}                # mailbox id -> (app, name, n) nameplate incarnation it was answered for
         self.inc_counter = 0
@@ -387,6 +388,7 @@ class Tracker(CmdMixin, MboxMixin, SweepMixin, Monitor):
         for key, (i, r) in presentn.items():
             if key not in self.np:
                 n = NpInc(key[0], key[1], self._new_n(), st.t)
+                self.np_ever.add((key[0], key[1]))
                 n.rowid = i
                 n.mid = r["mailbox_id"]
                 n.unknown_origin = True
